@@ -53,6 +53,14 @@ check("C17", "exploration",
       TB + " The asynctimerchan=1 half of the quantifier cannot be simulated (synctest refuses it) and is not covered.",
       "deterministic simulation with fault injection: real scheduler on a fake clock, seeded deadline patterns and yield-point interleavings, per-task execution oracle", "DESIGN.md 8/C17")
 
+check("C11", "exploration",
+      "Seeded search over numbers of peers on one listener socket (up to 160, beyond the accept backlog), connect / close / reconnect orders, acceptor stalls and injected foreign, stale, re-addressed and forged datagrams under loss, duplication and reordering; keyed per-peer payload streams make any foreign byte attributable; Accept results are checked per (address, conversation).",
+      TB + " Datagrams whose first segment carries sn 0 with another conversation id legitimately start a new conversation and are exercised only as genuine reconnects.",
+      "deterministic simulation with fault injection: multi-peer listener simulation with datagram re-addressing/staleness/forgery injection, per-peer keyed stream and Accept oracles", "DESIGN.md 8/C11")
+check("C19", "exploration",
+      "Seeded search over interleavings of SendOOB (every length 0..GetOOBMaxSize()+1) with Write traffic in both directions under the full fault swarm, handlers present / absent / replaced by nil, one or several sessions on a listener; every handler argument must equal a payload sent to that session and arrive no more often than the network delivered it; refused calls put nothing on the wire; stream, wire (FEC id continuity around OOB) and pool oracles keep holding.",
+      TB, "deterministic simulation with fault injection: seeded OOB/stream interleavings with tagged payloads, handler-argument and isolation oracles", "DESIGN.md 8/C19")
+
 NOTYET = "check not built yet in this session (work in progress; see DESIGN.md section 8 for the design)"
 for p in props:
     if p["id"] not in CHECKS:
